@@ -268,7 +268,7 @@ func rRunAndJudge(c *ctx, in rInput, d *Driver, impl *[]string) (reached bool) {
 		res.fail("reader.panic:"+topRepoFrame(oc.stack), "NewReader: "+oc.panicVal, input)
 		return src.reached
 	}
-	lpos := 0       // logical position of the next byte the reader should deliver
+	lpos := 0        // logical position of the next byte the reader should deliver
 	posKnown := true // false after a failed Seek (the position is then unspecified until the next successful Seek)
 	sequential := true
 	total := 0
